@@ -616,6 +616,32 @@ func (w *c13World) apply(r *Rec, op string) (out string) {
 		}
 		w.gen = g
 		w.list1 = w.c13Listing(g)
+		// export vs store, independent of any re-import: as many exported entries of each collection as the store holds
+		if w.reachable {
+			m := c13ParseDump(w.dump1)
+			cnt := map[string]int{}
+			for k := range m {
+				if k[:2] == "x:" {
+					cnt[c13Family("x", unhx(k[2:]))]++
+				} else if k[:2] == "a:" && strings.HasPrefix(k[2:], "01") {
+					cnt["pairs"]++
+				}
+			}
+			for _, c := range [][3]string{{" A[", "acks", "acks"}, {" K[", "commitments", "commitments"}, {" P[", "receipts", "receipts"},
+				{" Q[", "nextSequenceSend", "send-sequences"}, {" R[", "relayers", "relayers"}, {" T[", "pairs", "token-pairs"}, {"C[", "clientState", "clients"}} {
+				sec := c13Section(" "+w.list1, " "+strings.TrimPrefix(c[0], " "))
+				n := 0
+				if sec != "" {
+					n = strings.Count(sec, ",") + 1
+				}
+				if n != cnt[c[1]] {
+					r.Find(Finding{Sig: "C13:export-differs-from-store:" + c[2] + "-count", What: fmt.Sprintf("the export lists %d %s, the store holds %d", n, c[2], cnt[c[1]]),
+						Ops: append([]string{}, w.hist...), Obs: fmt.Sprint(n), Req: fmt.Sprint(cnt[c[1]])})
+					r.Count("export.count-differs")
+				}
+			}
+			r.Count("export.counts-checked")
+		}
 		// the exported parameters are the stored parameters (independent of any re-import): PR[...] of the listing = p[...] of the dump
 		if w.reachable {
 			if pr, pd := c13Section(w.list1, " PR["), c13Section(w.dump1, " p["); pr != pd {
@@ -1495,6 +1521,127 @@ func (w *c13World) genHistory(r *Rec, emit func(string), size int) {
 	r.Count("params")
 }
 
+// ---- SIZE as a generator dimension: every exported collection with 0, 1, 99, 100, 101, 250, 1000 entries -----------------------
+//
+// The entries are planted through the keepers' setters (SetPacketCommitment / SetPacketAcknowledgement / SetPacketReceipt /
+// SetNextSequenceSend, SetClientConsensusState + SetProcessedTime/SetIterationKey, SetSigner, the ETH index/root setters,
+// RegisterRelayers, SetTokenPair+SetDenomsMap+SetERC20Map, Subspace.Update) — relaying 1000 packets or 1000 header updates through
+// the handlers would take minutes; clients are created through the real CreateClient (TSS / Tendermint: no signature work).
+
+var c13SizeKinds = []string{"commit-single", "commit-multi", "receipt-single", "receipt-multi", "ack-single", "ack-multi", "nextseq",
+	"clients", "cons-tm", "bsc-signers", "eth-meta", "relayers", "relayer-chains", "pairs", "pair-denoms", "rvreward"}
+var c13SizeClasses = []int{0, 1, 99, 100, 101, 250, 1000}
+
+func (w *c13World) genSized(r *Rec, emit func(string), kind string, n int) {
+	emit("chainname " + hxs("teleport"))
+	emit(fmt.Sprintf("param %s %s %s", hxs("aggregate"), hxs("EnableAggregate"), hxs("true")))
+	emit(fmt.Sprintf("param %s %s %s", hxs("aggregate"), hxs("EnableEVMHook"), hxs("false")))
+	if kind != "rvreward" {
+		emit(c13RvParamsLine(r, "prop", true))
+	}
+	pairsOf := func(multi bool, i int) (string, string) {
+		if !multi {
+			return "teleport", "bsc"
+		}
+		srcs := []string{"teleport", "eth", "bsc", "bsctest", "chain1"}
+		dsts := []string{"bsc", "bsctest", "eth2", "chain10", "teleport", "zzz"}
+		return srcs[i%len(srcs)], dsts[(i/len(srcs))%len(dsts)]
+	}
+	seqOf := func(multi bool, i int) uint64 {
+		if multi {
+			return uint64(1 + i/30 + (i%7)*1000) // the same sequences recur on different paths
+		}
+		return uint64(1 + i) // 1..n: decimal key order (1,10,100,1000,101,…) differs from numeric order
+	}
+	switch kind {
+	case "commit-single", "commit-multi", "ack-single", "ack-multi":
+		verb := map[byte]string{'c': "commit", 'a': "ack"}[kind[0]]
+		multi := strings.HasSuffix(kind, "multi")
+		for i := 0; i < n; i++ {
+			sc, dc := pairsOf(multi, i)
+			emit(fmt.Sprintf("%s %s %s %d %s", verb, hxs(sc), hxs(dc), seqOf(multi, i), hx(c13Bytes(r, 32))))
+		}
+	case "receipt-single", "receipt-multi":
+		multi := strings.HasSuffix(kind, "multi")
+		for i := 0; i < n; i++ {
+			sc, dc := pairsOf(multi, i)
+			emit(fmt.Sprintf("receipt %s %s %d", hxs(sc), hxs(dc), seqOf(multi, i)))
+		}
+	case "nextseq":
+		for i := 0; i < n; i++ {
+			emit(fmt.Sprintf("nextseq %s %s %d", hxs("teleport"), hxs(fmt.Sprintf("dst%d", i)), 1+r.Rng.Intn(1000)))
+		}
+	case "clients":
+		for i := 0; i < n; i++ {
+			w.genCreate(r, []string{"tss", "tm"}[i%2], fmt.Sprintf("cl%d", i), emit)
+		}
+	case "cons-tm":
+		cl := w.genCreateAt(r, "tm", "tmbig", emit, c13Fix{set: true, rev: 1, h: 2000000, nval: -1})
+		for i := 0; i < n; i++ {
+			h := clienttypes.NewHeight(1, uint64(1+i))
+			cons := w.genConsFor(r, cl, h)
+			emit(fmt.Sprintf("cons %s %d %d %s %s", hxs(cl.chain), h.RevisionNumber, h.RevisionHeight, hx(w.consBlob(cons)), b01(cons.ValidateBasic() == nil)))
+			emit(fmt.Sprintf("tmmeta %s %d %d %d", hxs(cl.chain), h.RevisionNumber, h.RevisionHeight, 1700000000000000000+uint64(i)))
+		}
+	case "bsc-signers":
+		cl := w.genCreateAt(r, "bsc", "bscbig", emit, c13Fix{set: true, rev: 0, h: 5000000, nval: 3})
+		for i := 0; i < n; i++ {
+			emit(fmt.Sprintf("bscsigner %s %d %d %s", hxs(cl.chain), 0, 1+i, hx(c13Bytes(r, 20))))
+		}
+	case "eth-meta":
+		cl := w.genCreateAt(r, "eth", "ethbig", emit, c13Fix{set: true, rev: 0, h: 5000000, nval: -1})
+		for i := 0; i < n; i++ {
+			hash, root := c13Bytes(r, 32), c13Bytes(r, 32)
+			emit(fmt.Sprintf("ethindex %s %s %d %s", hxs(cl.chain), hx(hash), 1+i, hx(c13Bytes(r, 24))))
+			emit(fmt.Sprintf("ethroot %s %s %d %s", hxs(cl.chain), hx(root), 1+i, hx(hash)))
+		}
+	case "relayers":
+		for i := 0; i < n; i++ {
+			ir := clienttypes.IdentifiedRelayer{Address: sdk.AccAddress(c13Bytes(r, 20)).String(), Chains: []string{"bsc"}, Addresses: []string{common.BytesToAddress(c13Bytes(r, 20)).Hex()}}
+			emit("relayer " + hx(w.app.AppCodec().MustMarshal(&ir)))
+		}
+	case "relayer-chains":
+		ir := clienttypes.IdentifiedRelayer{Address: sdk.AccAddress(c13Bytes(r, 20)).String()}
+		for i := 0; i < n; i++ {
+			ir.Chains = append(ir.Chains, fmt.Sprintf("chain%d", i))
+			ir.Addresses = append(ir.Addresses, common.BytesToAddress(c13Bytes(r, 20)).Hex())
+		}
+		emit("relayer " + hx(w.app.AppCodec().MustMarshal(&ir)))
+	case "pairs", "pair-denoms":
+		np, nd := n, 1
+		if kind == "pair-denoms" {
+			np, nd = 1, n
+			if nd == 0 {
+				nd = 1 // a registered pair lists at least one denomination
+			}
+		}
+		for i := 0; i < np; i++ {
+			tp := aggregatetypes.TokenPair{ERC20Address: common.BytesToAddress(c13Bytes(r, 20)).Hex(), Enabled: i%2 == 0, ContractOwner: aggregatetypes.Owner(1 + i%2)}
+			for j := 0; j < nd; j++ {
+				tp.Denoms = append(tp.Denoms, fmt.Sprintf("d%dx%d", i, j))
+			}
+			line := fmt.Sprintf("%s %s %s %d", hx(tp.GetID()), hx(w.app.AppCodec().MustMarshal(&tp)), hx(tp.GetERC20Contract().Bytes()), len(tp.Denoms))
+			for _, d := range tp.Denoms {
+				line += " " + hxs(d)
+			}
+			emit("pair " + line)
+		}
+	case "rvreward":
+		m := n
+		if m == 0 {
+			m = 1 // an empty reward list is rejected by the validator
+		}
+		line := fmt.Sprintf("rvparams %s 1 %d", []string{"prop", "genesis"}[r.Rng.Intn(2)], m)
+		for i := 0; i < m; i++ {
+			line += fmt.Sprintf(" %s %d", hxs(fmt.Sprintf("den%d", (i*7919)%m+1000)), r.Rng.Intn(3)*(1+r.Rng.Intn(1000)))
+		}
+		emit(line)
+	}
+	r.Count("size.kind." + kind)
+	r.Count(fmt.Sprintf("size.class.%d", n))
+	r.Count(fmt.Sprintf("size.%s.%d", kind, n))
+}
+
 var c13Denoms = []string{"atele", "btele", "ctele", "zzz", "aaa", "paused", "Uatom", "x-y/z-1",
 	"ibc/27394FB092D2ECCD56123C74F36E4C1F926001CEADA9CA97EA622B25F41E5EB2", "aa0", "zz9", "mmm"}
 
@@ -1684,6 +1831,22 @@ func c13WriteCorpus(t *testing.T, r *Rec, dir string) {
 		{"fixed-bsc-no-validators-rejected", func(emit func(string)) {
 			w.genCreateAt(r, "bsc", "bsc-empty", emit, c13Fix{set: true, rev: 0, h: 200, nval: 0})
 		}},
+		{"size-101-commitments-one-path", func(emit func(string)) {
+			// more than 100 entries of one kind (a paginated walk with the default page size would export the first 100 only)
+			for i := 1; i <= 101; i++ {
+				emit(fmt.Sprintf("commit %s %s %d %s", hxs("teleport"), hxs("bsc"), i, hx(c13Bytes(r, 32))))
+			}
+		}},
+		{"size-101-receipts-acks-many-paths", func(emit func(string)) {
+			for i := 0; i < 101; i++ {
+				src, dst := []string{"teleport", "eth", "bsc"}[i%3], []string{"bsc", "bsctest", "eth2", "chain10"}[(i/3)%4]
+				emit(fmt.Sprintf("receipt %s %s %d", hxs(src), hxs(dst), 1+i/12))
+				emit(fmt.Sprintf("ack %s %s %d %s", hxs(src), hxs(dst), 1+i/12, hx(c13Bytes(r, 32))))
+			}
+			for i := 0; i < 101; i++ {
+				emit(fmt.Sprintf("nextseq %s %s %d", hxs("teleport"), hxs(fmt.Sprintf("dst%d", i)), 1+i))
+			}
+		}},
 		{"rv-unsorted-reward", func(emit func(string)) {
 			// reward lists the validator accepts but sdk.NewCoins would change: unsorted (set by a parameter-change proposal)
 			emit(fmt.Sprintf("rvparams prop 1 2 %s 5 %s 7", hxs("zzz"), hxs("aaa")))
@@ -1832,7 +1995,7 @@ func TestC13(t *testing.T) {
 		run(append([]string{"reset"}, h...))
 		r.Count("corpus")
 	}
-	cases := 250
+	cases := 320
 	if r.Tier == "thorough" {
 		cases = 600
 	}
@@ -1849,8 +2012,20 @@ func TestC13(t *testing.T) {
 		if c%10 == 0 {
 			size = 0
 		}
-		w.genHistory(r, emit, size)
-		mutated := r.Rng.Intn(6) == 0
+		sized := c%5 == 2
+		if sized {
+			// SIZE dimension: kinds cycle, classes rotate with the shard and the seed so that every (kind, class) pair is reached
+			i := c / 5
+			kind := c13SizeKinds[i%len(c13SizeKinds)]
+			cls := c13SizeClasses[(i/len(c13SizeKinds)+i+r.Shard*3+int(r.Seed))%len(c13SizeClasses)]
+			if cls == 1000 && (i/len(c13SizeKinds)+r.Shard)%3 != 0 {
+				cls = 300 // the list-based Lean model is quadratic: most of the largest stores are 300 entries, every third one 1000
+			}
+			w.genSized(r, emit, kind, cls)
+		} else {
+			w.genHistory(r, emit, size)
+		}
+		mutated := !sized && r.Rng.Intn(6) == 0
 		if mutated {
 			// unreachable states: stale / foreign keys in the xibc store (the model must still predict export and re-import exactly)
 			for i := 1 + r.Rng.Intn(3); i > 0; i-- {
